@@ -25,6 +25,8 @@ def content_bytes(key):
         if n >= 0x44:
             b[0x40:0x44] = b'\xfb\xc0\x78\x70'
         return bytes(b)
+    if key[0] == 'z':
+        return b'\x00' * int(key[1:])
     assert key[0] == 'c', key
     if 's' in key:
         n, s = key[1:].split('s')
@@ -417,6 +419,7 @@ class Model(object):
         if udf_bootcatfile and self.udf is None:
             raise ModelRefuse('no udf')
         ent = {'bid': n['bid'], 'boot_load_size': boot_load_size, 'platform_id': platform_id,
+               'platform_explicit': platform_id != 0,
                'boot_info_table': boot_info_table, 'efi': efi, 'media_name': media_name,
                'bootable': bootable, 'boot_load_seg': boot_load_seg}
         if self.boot is None:
@@ -452,6 +455,9 @@ class Model(object):
             raise ModelRefuse('no El Torito')
         for ns, p in self.names_of('CAT'):
             del self.tree(ns)[p]
+        for e in self.boot['entries']:
+            if e['bid'] in self.blobs:
+                self.blobs[e['bid']]['bit'] = False      # no longer a boot file: reads back as supplied
         self.boot = None
         self.blobs.pop('CAT', None)
         self.hybrid_dangling = self.hybrid is not None
@@ -487,7 +493,34 @@ class Model(object):
 
     # pseudo operations --------------------------------------------------------
     def op_REOPEN(self):
+        # Writing and opening again loses nothing the user can observe, except that the association between
+        # the names of an *empty* file is not recorded on the disc (documented at rm_file): each name of a
+        # zero-length content becomes a content of its own.
         self.generation += 1
+        for bid, b in self.blobs.items():
+            if b.get('bit'):
+                # the boot info table is patched into the stored file: from now on bytes 8..63 of the content
+                # are whatever the table was, also after El Torito is removed
+                b['patched'] = True
+        for bid in list(self.blobs):
+            if bid == 'CAT' or bid in self.boot_bids():
+                continue
+            if len(content_bytes(self.blobs[bid]['content'])) == 0:
+                names = self.names_of(bid)
+                # UDF names of one (empty) file share a File Entry, which does identify them as links
+                groups = [[(ns, p)] for ns, p in names if ns != 'udf']
+                u = [(ns, p) for ns, p in names if ns == 'udf']
+                if u:
+                    groups.append(u)
+                for g in groups[1:]:
+                    nb = self.next_bid
+                    self.next_bid += 1
+                    self.blobs[nb] = dict(self.blobs[bid])
+                    for ns, p in g:
+                        self.tree(ns)[p]['bid'] = nb
+
+    def op_REOPEN_SAME(self):
+        self.op_REOPEN()
 
     def op_TICK(self):
         pass
